@@ -84,14 +84,13 @@ def atBoundary (doc : Node) (p : Nat) : Bool :=
   | some r => r.textOffset == 0
   | none => false
 
-/-- **C12 monitor, with the positional guard**: a structure-only step whose replaced ranges start at
-    node boundaries (`content_between` skips the rest of a text node it starts in — also upstream —, so
-    the structure flag only protects content for ranges that start at a boundary) -/
-def isStructuralAt (doc : Node) (st : Step) : Bool :=
+/-- **C12 monitor**: a structure-only step with well-ordered positions (the structure flag's guard
+    `content_between` then makes sure the replaced ranges hold no content) -/
+def isStructuralAt (_doc : Node) (st : Step) : Bool :=
   isStructural st &&
   match st with
-  | .replace f t _ _ => decide (f ≤ t) && atBoundary doc f
-  | .replaceAround f t gf gt _ _ _ => decide (f ≤ gf) && decide (gf ≤ gt) && decide (gt ≤ t) && atBoundary doc f && atBoundary doc gt
+  | .replace f t _ _ => decide (f ≤ t)
+  | .replaceAround f t gf gt _ _ _ => decide (f ≤ gf) && decide (gf ≤ gt) && decide (gt ≤ t)
   | _ => false
 
 /-- **C18 monitor**: the step's whole range lies strictly inside the node occupying `[a, b)` (its open
